@@ -220,8 +220,14 @@ class Container:
         elif kind == "nested":
             self.td = build_plain(bs, layout, self.cnt, rng, True, zf)
         elif kind == "lazy":
-            ms = [build_plain(bs[1:], layout, self.cnt, rng, i == 7, zf) for i in range(bs[0])]
+            # member count 2 (usual), 1 (a stack of ONE tensordict: stacking one tensor must still copy), and a stack of stacks
+            shape_kind = rng.choice(["two", "two", "one", "one_of_one", "two_of_one"])
+            nmem = 1 if shape_kind in ("one", "one_of_one") else bs[0]
+            ms = [build_plain(bs[1:], layout, self.cnt, rng, i == 7, zf) for i in range(nmem)]
+            if shape_kind in ("one_of_one", "two_of_one"):
+                ms = [LazyStackedTensorDict(m, stack_dim=0) for m in ms]      # every member is itself a 1-member stack
             self.td = LazyStackedTensorDict(*ms, stack_dim=0)
+            self.lazy_shape = shape_kind
         elif kind == "sub":
             big = build_plain((4,) + tuple(bs[1:]), layout, self.cnt, rng, False, zf)
             self.source = big
